@@ -116,3 +116,124 @@ func (g *G) ShuffleSets(m protoreflect.Message) {
 		}
 	}
 }
+
+// MutationPoints counts the places where MutateAt can change m (every attribute at every nesting
+// level: scalars, list elements, list growth, map values, map growth, dates).
+func MutationPoints(m protoreflect.Message) int {
+	n := 0
+	walkPoints(m, &n, -1)
+	return n
+}
+
+// LastOld holds the previous value of the attribute changed by the latest MutateAt / MutateOne
+// call when that attribute is a string (empty otherwise).
+var LastOld string
+
+// MutateAt applies the k-th single-attribute change (0 <= k < MutationPoints(m)) and describes it.
+func MutateAt(m protoreflect.Message, k int) string {
+	n := 0
+	LastOld = ""
+	return walkPoints(m, &n, k)
+}
+
+func walkPoints(m protoreflect.Message, n *int, target int) string {
+	hit := func() bool { *n++; return *n-1 == target }
+	fds := m.Descriptor().Fields()
+	name := string(m.Descriptor().Name())
+	for i := 0; i < fds.Len(); i++ {
+		fd := fds.Get(i)
+		path := name + "." + string(fd.Name())
+		switch {
+		case fd.IsMap():
+			var keys []int64
+			m.Get(fd).Map().Range(func(k protoreflect.MapKey, _ protoreflect.Value) bool { keys = append(keys, k.Int()); return true })
+			sortInt64(keys)
+			for _, k := range keys {
+				if hit() {
+					mp := m.Mutable(fd).Map()
+					mk := protoreflect.ValueOfInt32(int32(k)).MapKey()
+					LastOld = mp.Get(mk).String()
+					mp.Set(mk, protoreflect.ValueOfString(mp.Get(mk).String()+"x"))
+					return fmt.Sprintf("%s[%d] value changed", path, k)
+				}
+			}
+			if hit() {
+				m.Mutable(fd).Map().Set(protoreflect.ValueOfInt32(77).MapKey(), protoreflect.ValueOfString("mut"))
+				return path + "[77] added"
+			}
+		case fd.IsList():
+			ln := m.Get(fd).List().Len()
+			for j := 0; j < ln; j++ {
+				switch fd.Kind() {
+				case protoreflect.StringKind:
+					if hit() {
+						l := m.Mutable(fd).List()
+						LastOld = l.Get(j).String()
+						l.Set(j, protoreflect.ValueOfString(l.Get(j).String()+"x"))
+						return fmt.Sprintf("%s[%d] changed", path, j)
+					}
+				case protoreflect.MessageKind:
+					if target < 0 {
+						walkPoints(m.Get(fd).List().Get(j).Message(), n, target)
+					} else if d := walkPoints(m.Mutable(fd).List().Get(j).Message(), n, target); d != "" {
+						return fmt.Sprintf("%s[%d].%s", path, j, d)
+					}
+				}
+			}
+			if hit() {
+				l := m.Mutable(fd).List()
+				switch fd.Kind() {
+				case protoreflect.StringKind:
+					l.Append(protoreflect.ValueOfString("mut"))
+				case protoreflect.EnumKind:
+					l.Append(protoreflect.ValueOfEnum(27))
+				case protoreflect.MessageKind:
+					el := l.NewElement()
+					efds := el.Message().Descriptor().Fields()
+					for j := 0; j < efds.Len(); j++ {
+						if efds.Get(j).Kind() == protoreflect.StringKind && !efds.Get(j).IsList() && !efds.Get(j).IsMap() {
+							el.Message().Set(efds.Get(j), protoreflect.ValueOfString("mut"))
+							break
+						}
+					}
+					l.Append(el)
+				}
+				return path + " element added"
+			}
+		case fd.Kind() == protoreflect.MessageKind:
+			if fd.Message().FullName() == "google.protobuf.Timestamp" {
+				if hit() {
+					tm := m.Mutable(fd).Message()
+					sf := tm.Descriptor().Fields().ByName("seconds")
+					tm.Set(sf, protoreflect.ValueOfInt64(tm.Get(sf).Int()+7))
+					return path + " seconds changed"
+				}
+			}
+		case fd.Kind() == protoreflect.StringKind:
+			if hit() {
+				LastOld = m.Get(fd).String()
+				m.Set(fd, protoreflect.ValueOfString(m.Get(fd).String()+"x"))
+				return path + " changed"
+			}
+		case fd.Kind() == protoreflect.BoolKind:
+			if hit() {
+				m.Set(fd, protoreflect.ValueOfBool(!m.Get(fd).Bool()))
+				return path + " flipped"
+			}
+		case fd.Kind() == protoreflect.EnumKind:
+			if hit() {
+				m.Set(fd, protoreflect.ValueOfEnum(m.Get(fd).Enum()+1))
+				return path + " changed"
+			}
+		}
+	}
+	return ""
+}
+
+func sortInt64(a []int64) {
+	for i := 1; i < len(a); i++ {
+		for j := i; j > 0 && a[j] < a[j-1]; j-- {
+			a[j], a[j-1] = a[j-1], a[j]
+		}
+	}
+}
